@@ -30,7 +30,7 @@ func TestMain(m *testing.M) { vt.Main(m) }
 type Event struct {
 	Kind string `json:"kind"` // call relwrite respond readfail cancel close failwrites sleep
 	// call
-	Ctx     string `json:"ctx,omitempty"`      // "bg" | "cancel" | "deadline"
+	Ctx     string `json:"ctx,omitempty"` // "bg" | "cancel" | "deadline"
 	Timeout int    `json:"timeout_ms,omitempty"`
 	// relwrite: I selects among parked writes (mod), Outcome ok|broken|rejected
 	I       int    `json:"i,omitempty"`
@@ -126,25 +126,25 @@ type callRec struct {
 	deadline  time.Time
 	raced     bool // a response and a cancellation for it were not separated by quiescence
 	// what the script delivered for this call's id, first delivery only
-	delivered   bool
-	deliverKind string
-	deliverPay  json.RawMessage
-	deliverCode int64
+	delivered          bool
+	deliverKind        string
+	deliverPay         json.RawMessage
+	deliverCode        int64
 	deliveredWhileDone bool
-	startedAfterDone bool
-	writeFailed      bool // the script failed (broken/rejected) the write of this call's request
+	startedAfterDone   bool
+	writeFailed        bool // the script failed (broken/rejected) the write of this call's request
 }
 
 type world struct {
-	s      Script
-	sc     *memio.ScriptConn
-	calls  []*callRec
-	broken bool // connection may be broken/closing (write broken, read failed, close called, failwrites)
-	brokenByNow bool
-	closeDone   chan struct{}
+	s             Script
+	sc            *memio.ScriptConn
+	calls         []*callRec
+	broken        bool // connection may be broken/closing (write broken, read failed, close called, failwrites)
+	brokenByNow   bool
+	closeDone     chan struct{}
 	allWritesFail bool
-	released map[*memio.PendingWrite]bool
-	res    *vt.Result
+	released      map[*memio.PendingWrite]bool
+	res           *vt.Result
 
 	doCall func(ctx context.Context, k int) (json.RawMessage, error)
 	wait   func() error
